@@ -14,7 +14,8 @@ LEVEL_TEXT = ("Exhaustive for all numbers 0..9999 x operand digits 0..9 x four o
               "state of the schoolbook algorithms is exercised); sampled for lengths up to 1 300 digits with carry/borrow chains "
               "of every length 0..20 and > 1000. The contracts also fire on the internal calls made by encode/decode.")
 LEVEL_NOTE = "Trusts Python's arbitrary-precision int and str(int)."
-PLAN = {"quick": dict(shards=16, budget=40), "thorough": dict(shards=16, budget=300)}
+PLAN = {"quick": dict(shards=17, budget=40), "thorough": dict(shards=17, budget=300)}
+SPECIAL_SHARD = True  # the last shard runs files of the repository's own suite in-process under the contracts
 EXHAUSTIVE = ["numbers 0..9999 x operands 0..9 x {add, sub, mul, div}"]
 RULE = ("icontract ensure on calculus_addition / _subtraction / _multiplication / _division: result is the canonical decimal "
         "string of the exact int result (subtraction judged when the result >= 0; division by 0 is documented to return "
@@ -121,6 +122,9 @@ def model_states(op, number, base):
 
 def generate(ctx):
     rng = ctx.rng
+    if ctx.special:
+        yield "repo_tests", dict(files=ctx.pick(['tests/test_operations.py', 'tests/test_number_vs_binary_message.py'], ['tests/test_operations.py', 'tests/test_number_vs_binary_message.py', 'tests/test_number_vs_dna_sequence.py', 'tests/test_coding.py']))
+        return
     i = 0
     for lo in range(0, 10000, 50):
         if ctx.mine(i):
@@ -220,7 +224,21 @@ def check_via_coding(ctx, case):
     ctx.done("via_coding", case, True)
 
 
-CHECKS = {"block": check_block, "numbers": check_numbers, "one": check_one, "via_coding": check_via_coding}
+def check_repo_tests(ctx, case):
+    """The repository's own tests, in-process, with this property's contracts installed."""
+    from vlib.coding import run_repo_tests
+    rc, n = run_repo_tests(ctx, case["files"])
+    ctx.mon("contract-evaluations-inside-repo-tests", n)
+    if rc is None:
+        ctx.cls("repo-tests|missing")
+        return
+    ctx.cls("repo-tests|run")
+    if rc != 0:
+        ctx.fail("repo-tests-under-contracts", "pytest exit %s on %s with the contracts installed (a contract fired inside the repository's own tests, or a test failed)" % (rc, case["files"]))
+    ctx.done("repo_tests", case, n > 0)
+
+
+CHECKS = {"repo_tests": check_repo_tests, "block": check_block, "numbers": check_numbers, "one": check_one, "via_coding": check_via_coding}
 
 
 def reachable_states():
@@ -237,6 +255,8 @@ def reachable_states():
 
 def floors(agg, tier):
     out = []
+    if agg["monitors"].get("contract-evaluations-inside-repo-tests", 0) < (100 if tier == "quick" else 100):
+        out.append("repository tests ran %d contract evaluations" % agg["monitors"].get("contract-evaluations-inside-repo-tests", 0))
     c, m = agg["classes"], agg["monitors"]
     for op in OPS:
         key = [x for x in m if x.startswith("contract-evaluations:%s." % op)]
